@@ -28,10 +28,10 @@ VARIABLES l, verdict
 (* last component of ev.fn), never on addresses or line numbers.  Example:                             *)
 (*   KF_C33(ev) == ev.kind = "assert" /\ ev.site \in {"build_or_get_type_decl", "build_type_decl"}     *)
 (* A C35 finding is keyed by SanKey(ev) = tool | kind | function.                                       *)
-KF_C33(ev) == FALSE
-KF_C33_Id(ev) == "C33-reader-robustness"
-KF_C35(ev) == FALSE
-KF_C35_Id(ev) == "C35-sanitizer-clean"
+(* KF_C33(ev) : see KnownFindings.tla *)
+(* KF_C33_Id(ev) : see KnownFindings.tla *)
+(* KF_C35(ev) : see KnownFindings.tla *)
+(* KF_C35_Id(ev) : see KnownFindings.tla *)
 (* END known-finding predicates                                                                        *)
 (* ------------------------------------------------------------------------------------------------ *)
 
